@@ -99,7 +99,14 @@ pub struct UnsafeProtocolChainConfig {
 
 impl UnsafeProtocolChainConfig {
     pub fn validate(&self) -> Result<ProtocolChainConfig, ContractError> {
+        // `parse::<u64>` alone also accepts a leading `+` sign.
         let channel_id_correct = self.ibc_channel_id.starts_with("channel-")
+            && self
+                .ibc_channel_id
+                .strip_prefix("channel-")
+                .unwrap()
+                .bytes()
+                .all(|b| b.is_ascii_digit())
             && self
                 .ibc_channel_id
                 .strip_prefix("channel-")
